@@ -183,7 +183,7 @@ impl Property for C07 {
                 })
             })
         });
-        Box::new(single.chain(rt).chain(pairs))
+        Box::new(single.chain(rt).chain(pairs).chain(history::long_repeats(quick).into_iter().map(Case::Hist)))
     }
     fn fuzz_plans(&self) -> Vec<(&'static str, u64)> {
         vec![("history", 10000)]
